@@ -8,7 +8,7 @@ warnings.filterwarnings("ignore")
 
 
 def node_state(nd):
-    return (nd.idx, nd.label, nd.predicted_label, nd.cluster_label, nd.features.tobytes(), repr(float(nd.cost)),
+    return (nd.idx, nd.label, nd.predicted_label, nd.cluster_label, (str(nd.features.dtype), nd.features.tobytes()), repr(float(nd.cost)),
             repr(float(nd.density)), repr(float(nd.radius)), nd.n_plateaus, tuple(int(a) for a in nd.adjacency), nd.root,
             nd.status, nd.pred, nd.relevant)
 
@@ -42,6 +42,8 @@ def run(rng, tier, res=None):
     names = sorted(dist.DISTANCES)
     ncases = (28 * BOOST) if tier == "quick" else 4 * len(names)
     tmp = tempfile.mkdtemp(prefix="opfverif-persist-")
+    saved_states = {}
+    last_dotted = {}
 
     def viol(msgs, meta):
         for m in (msgs if isinstance(msgs, list) else [msgs])[:3]:
@@ -56,6 +58,14 @@ def run(rng, tier, res=None):
         X = X / X.sum(axis=1, keepdims=True)          # probability vectors: inside every metric's domain
         Y = np.array([i % 2 for i in range(n)], dtype=int)
         Xt, Xu, Q = X[:n], X[n:n + 2], X[n + 2:]
+        if kind == "semi" and case % 8 == 1 and metric in ("euclidean", "manhattan", "squared_euclidean", "chebyshev", "log_squared_euclidean"):
+            # integer-typed labeled samples with fractional unlabeled ones: every stored sample keeps its own values
+            Xt = np.array([[rng.randint(0, 6) for _ in range(d)] for _ in range(n)], dtype=np.int64)
+            pre = False
+            res.hit("mixed_dtype_semi")
+        if kind == "sup" and case % 8 == 0:
+            Xt = Xt.astype(np.float32); pre = False
+            res.hit("float32_sup")
         meta = {"kind": kind, "metric": metric, "pre_computed": pre, "X": X.tolist()}
         try:
             fn = dist.DISTANCES[metric]
@@ -80,7 +90,13 @@ def run(rng, tier, res=None):
                 o.propagate_labels(); pq = lambda m: m.predict(Q, I_val=(Iq if pre else None))  # noqa
             p0 = pq(o)
             s0 = model_state(o)
-            path = os.path.join(tmp, "model.pkl" if case % 2 == 0 else f"m{case}.pkl")   # a path that is written again and again
+            # a path that is written again and again / names that differ only after their last dot
+            path = os.path.join(tmp, "model.pkl" if case % 4 == 0 else (f"m{case}.pkl" if case % 4 == 1 else f"forest.run{case % 2}.v{case}"))
+            sib = None
+            if case % 4 >= 2:
+                sib = last_dotted.get(case % 2)      # the previous model saved under the same stem, another suffix
+                last_dotted[case % 2] = path
+                res.hit("dotted_names")
             o.save(path)
             s0b = model_state(o)
             s1 = model_state(o)
@@ -114,9 +130,22 @@ def run(rng, tier, res=None):
                     bad.append(f"predictions {p3} vs {p0}")
                 if bad:
                     viol(f"{kind}/{metric}: loaded into a model constructed with another metric and its own distance file: {bad[:3]}", meta)
+                    if fresh3.distance_fn is not dist.DISTANCES[metric]:
+                        res.violations.append({"property": "C06", "what": f"after load the model reports distance={fresh3.distance!r} but its "
+                                               f"distance_fn is not DISTANCES[{metric!r}] (the identifier does not resolve to its function)", "replay": meta})
+                    if repr(p3) != repr(p0) and kind in ("knn", "unsup"):
+                        res.violations.append({"property": "C14", "what": f"{kind}/{metric}: the re-loaded model predicts {p3}, the saved one {p0}: "
+                                               f"the scan does not use the model's metric", "replay": meta})
                 res.hit("receiver_with_own_options")
             if pre and (np.asarray(fresh.pre_distances).tobytes() != np.asarray(M).tobytes()):
                 viol(f"{kind}/{metric}: the re-loaded model's pre-computed matrix differs from the saved one", meta)
+            if sib is not None and sib in saved_states:
+                chk = type(saved_states[sib][0])()
+                chk.load(sib)
+                if model_state(chk) != saved_states[sib][1]:
+                    viol(f"loading {os.path.basename(sib)!r} returns another model after {os.path.basename(path)!r} was saved "
+                         f"(two file names map to one file)", meta)
+            saved_states[path] = (fresh, s0b)
             # a second load of the same file must give an independent object with the saved state
             fresh2 = type(fresh)()
             fresh2.load(path)
